@@ -8,6 +8,11 @@ Three exhaustive explorations of the REAL managers (tensorly.backend, tensorly.t
       specification in vmc/bk.py (trace inclusion).
 * SX  sub-operation interleavings: real threads under a controlled scheduler (vmc/sched.py),
       all schedules up to a pre-emption bound, oracle = linearizability w.r.t. the same spec.
+* DX  "dynamically dispatched functions always run on that backend": in every state reached by a history of
+      selection events (length <= 2 quick / 3 thorough, two threads) EVERY name of the managers' dispatch tables
+      (functions and attributes) is reached through every access path (manager attribute, reference taken before
+      any selection, tensorly top level) in every thread, with marker methods installed on the backend classes; each
+      must land on the backend get_backend() names in that thread (get_backend() itself is judged by HX/SX/TX).
 * TX  the TLA+ statement of the spec (models/BackendStack.tla): TLC enumerates its state graph,
       the graph is compared with the Python spec's graph, and its edges are replayed on the real code.
 """
@@ -425,6 +430,185 @@ def python_spec_graph(names, nthreads, depth, g0):
     return order, edges, path
 
 
+# ------------------------------------------------------------------------------------------ DX: every dispatched name
+class _Tag:
+    """marker value standing in for a dispatched attribute of one backend"""
+
+    def __init__(self, backend, name):
+        self.backend, self.name = backend, name
+
+
+_DX_MISSING = object()
+_DX_ATTRS = ("int64", "int32", "float64", "float32", "pi", "e", "inf", "nan", "complex128", "complex64", "index", "backend_name")
+_DX_PRE = {}
+
+
+def dx_names(mgr):
+    funcs = list(mgr.cls._functions)
+    attrs = [a for a in getattr(mgr.cls, "_attributes", [])]
+    return funcs, attrs
+
+
+def dx_prebound(mgr):
+    """references to the dispatched functions taken once, before any selection (what `from tensorly import f` gives a user)"""
+    if mgr.which not in _DX_PRE:
+        _DX_PRE[mgr.which] = {n: getattr(mgr.mod, n) for n in mgr.cls._functions}
+    return _DX_PRE[mgr.which]
+
+
+def dx_patch(mgr, funcs, attrs):
+    """Replace, on every participating backend class, each dispatched function by a marker that records (backend, name) and each
+    dispatched attribute (except backend_name, which the manager itself reads) by a tagged value.  Returns the undo list."""
+    undo = []
+    hit = bk._EXEC
+    for nm in mgr.names:
+        bcls = type(mgr.cls._loaded_backends[nm])
+        for f in funcs:
+            undo.append((bcls, f, bcls.__dict__.get(f, _DX_MISSING)))
+
+            def marker(*a, _nm=nm, _f=f, **k):
+                hit.dx = (_nm, _f)
+
+            setattr(bcls, f, staticmethod(marker))
+        for a in attrs:
+            if a == "backend_name":
+                continue
+            undo.append((bcls, a, bcls.__dict__.get(a, _DX_MISSING)))
+            setattr(bcls, a, _Tag(nm, a))
+    return undo
+
+
+def dx_unpatch(undo):
+    for bcls, name, old in reversed(undo):
+        if old is _DX_MISSING:
+            try:
+                delattr(bcls, name)
+            except AttributeError:
+                pass
+        else:
+            setattr(bcls, name, old)
+
+
+def dx_probe_thread(mgr, funcs, attrs, pre):
+    """Executed inside a participant thread while the markers are installed: every way of reaching every dispatched name must
+    land on the backend get_backend() names in this thread.  Returns (expected backend, [(path, name, landed)...] mismatches, n)."""
+    import tensorly as _tl
+
+    exp = mgr.mod.get_backend()
+    bad, n = [], 0
+    hit = bk._EXEC
+    top = mgr.which == "backend"
+
+    def call(path, name, fn):
+        nonlocal n
+        n += 1
+        hit.dx = None
+        try:
+            fn()
+            got = hit.dx
+        except Exception as e:  # the marker accepts any arguments: an exception comes from the dispatch machinery
+            got = ("raised:" + type(e).__name__, name)
+        if got != (exp, name):
+            bad.append((path, name, got))
+
+    for f in funcs:
+        try:
+            call("manager-attribute", f, getattr(mgr.mod, f))
+        except AttributeError as e:
+            bad.append(("manager-attribute", f, ("missing", str(e)[:60])))
+        call("reference-taken-earlier", f, pre[f])
+        if top and hasattr(_tl, f):
+            call("tensorly-top-level", f, getattr(_tl, f))
+    for a in attrs:
+        paths = [("manager-attribute", mgr.mod)]
+        if top and a not in vars(_tl):
+            paths.append(("tensorly-top-level", _tl))
+        for path, mod in paths:
+            n += 1
+            try:
+                v = getattr(mod, a)
+            except Exception as e:
+                bad.append((path, a, ("raised:" + type(e).__name__, a)))
+                continue
+            got = (v.backend, v.name) if isinstance(v, _Tag) else (v, a) if a == "backend_name" else ("untagged-static-value", a)
+            if got != (exp, a):
+                bad.append((path, a, got))
+    return exp, bad, n
+
+
+def dx_histories(names, nthreads, maxlen):
+    """every history of selection events (no queries / rejected requests: they change nothing) of length <= maxlen, contexts nested
+    at most maxlen deep, simplest first"""
+    evs = [e for e in bk.alphabet(names, with_query=False) if e[0] in ("set", "enter", "exit")]
+    out = [([], (0,) * nthreads)]
+    frontier = list(out)
+    for _ in range(maxlen):
+        nxt = []
+        for h, d in frontier:
+            for t in range(nthreads):
+                for ev in evs:
+                    if ev[0] == "exit" and d[t] == 0:
+                        continue
+                    d2 = list(d)
+                    d2[t] += 1 if ev[0] == "enter" else -1 if ev[0] == "exit" else 0
+                    nxt.append((h + [(t, ev)], tuple(d2)))
+        out += nxt
+        frontier = nxt
+    return [h for h, _ in out]
+
+
+def dx_run(mgr, nthreads, g0, hist, fresh_threads=False):
+    """establish the state reached by `hist` on the real manager, install the markers, probe every name in every thread"""
+    mgr.reset(g0)
+    dx_prebound(mgr)
+    tr = bk.ThreadRunner(nthreads) if fresh_threads else get_runner(nthreads)
+    ctxs = [[] for _ in range(nthreads)]
+    funcs, attrs = dx_names(mgr)
+    try:
+        for u in range(nthreads):
+            tr.do(u, mgr.clear_tls)
+        for t, ev in hist:
+            res = tr.do(t, lambda t=t, ev=ev: mgr.op(tuple(ev), ctxs[t], by_instance=(t % 2 == 1)))
+            if isinstance(res, tuple) and res and res[0] == "__harness_exception__":
+                raise HarnessError(f"harness exception in participant thread: {res} hist={hist}")
+        undo = dx_patch(mgr, funcs, attrs)
+        try:
+            pre = dx_prebound(mgr)
+            outs = [tr.do(u, lambda: dx_probe_thread(mgr, funcs, attrs, pre)) for u in range(nthreads)]
+        finally:
+            dx_unpatch(undo)
+        for o in outs:
+            if isinstance(o, tuple) and o and o[0] == "__harness_exception__":
+                raise HarnessError(f"harness exception in DX probe: {o} hist={hist}")
+        return outs
+    finally:
+        for t in range(nthreads):
+            while ctxs[t]:
+                cm = ctxs[t].pop()
+                try:
+                    tr.do(t, lambda cm=cm: cm.__exit__(None, None, None))
+                except Exception:
+                    pass
+        if fresh_threads:
+            tr.close() if hasattr(tr, "close") else None
+
+
+def dx_judge(which, hist, outs, ctx, g0=None):
+    for u, (exp, bad, n) in enumerate(outs):
+        ctx.evaluations += n
+        ctx.count("DX:dispatched-name-probes", n)
+        by = {}
+        for path, name, got in bad:
+            kind = "attribute" if name in _DX_ATTRS else "function"
+            by.setdefault((path, kind), []).append((name, got))
+        for (path, kind), lst in by.items():
+            ctx.violation(f"{which}/dispatch/{kind}-via-{path}-runs-on-wrong-backend",
+                          f"thread {u} (get_backend() = {exp}) after history {hist}: {len(lst)} dispatched {kind}s reached through "
+                          f"'{path}' did not land on {exp}: first {lst[:4]}",
+                          case={"part": "DX", "manager": which, "threads": len(outs), "g0": g0, "history": [[t, list(ev)] for t, ev in hist]})
+
+
+
 class C17(Check):
     pid = "C17"
     level = "model_checking"
@@ -452,6 +636,12 @@ class C17(Check):
                 for pi, prog in enumerate(sx_programs(names, kind)):
                     gs.append({"part": "SX", "manager": which, "family": kind, "program": pi, "names": [c[0] for c in prog],
                                "bound": bound, "opcode": opcode})
+            # DX: every dispatched function / attribute, through every access path, in every state reached by a short history
+            maxlen = 2 if tier == "quick" else 3
+            nh = len(dx_histories(names, 2, maxlen))
+            nchunks = 8 if tier == "quick" else 32
+            for c in range(nchunks):
+                gs.append({"part": "DX", "manager": which, "maxlen": maxlen, "chunk": c, "nchunks": nchunks, "histories": len(range(c, nh, nchunks))})
         return gs
 
     def run_group(self, group, tier, seed, ctx):
@@ -460,6 +650,22 @@ class C17(Check):
         which = group["manager"]
         mgr = get_mgr(which, 2)
         names = mgr.names
+        if group["part"] == "DX":
+            hs = dx_histories(names, 2, group["maxlen"])
+            landed = set()
+            for hist in hs[group["chunk"]::group["nchunks"]]:
+                outs = dx_run(mgr, 2, names[0], hist)
+                dx_judge(which, hist, outs, ctx, names[0])
+                ctx.states += 1
+                ctx.traces += 1
+                ctx.transitions += len(hist)
+                ctx.count("DX:histories", 1)
+                obs = tuple(o[0] for o in outs)
+                landed.add(obs)
+                ctx.outcome("DX:threads-observe-" + ("different-backends" if len(set(obs)) > 1 else "same-backend"))
+                if len(set(obs)) > 1:
+                    ctx.nontrivial.add(canon_key(("DX", which, hist)))
+            return
         progs = sx_programs(names, group["family"])
         prog = progs[group["program"]]
         assert [c[0] for c in prog] == group["names"]
@@ -670,6 +876,11 @@ class C17(Check):
                     ctx.violation(sig, d + f" | after {hist[:i]}")
                 if not S:
                     return
+            return
+        if case.get("part") == "DX":
+            mgr = get_mgr(case["manager"], 2)
+            hist = [(t, tuple(ev)) for t, ev in case["history"]]
+            dx_judge(case["manager"], hist, dx_run(mgr, case["threads"], case["g0"] or mgr.names[0], hist), ctx, case["g0"])
             return
         if case.get("part") == "SX":
             from vmc import sched
